@@ -121,3 +121,32 @@ def mutate_tree(tree, op):
             raise ValueError(kind)
     except TreeError:
         pass
+
+
+# ---------------------------------------------------------------------------
+# the intended links of a built (and then mutated) tree, kept apart from what the library reports
+
+def model_apply(parents, op):
+    """parents: list index -> parent index or None.  Mirrors mutate_tree (moves that would be loops are skipped)."""
+    n = len(parents)
+    kind = op[0]
+    if kind == "move":
+        node, target = op[1] % n, op[2] % n
+        cur = target
+        while cur is not None and cur != node:
+            cur = parents[cur]
+        if cur != node:
+            parents[node] = target
+    elif kind == "detach":
+        parents[op[1] % n] = None
+
+
+def links_problem(tree, parents):
+    """None if every node's .parent is the node the case intends, else a description."""
+    for i, p in enumerate(parents):
+        want = None if p is None else tree[p]
+        if tree[i].parent is not want:
+            return "node %d should have parent %s, .parent says something else" % (i, p)
+        if want is not None and not any(c is tree[i] for c in want.children):
+            return "node %d is missing from the children of its parent %d" % (i, p)
+    return None
